@@ -61,6 +61,13 @@ func newWorld(cap uint64) *world {
 	return &world{c: lru.NewCache[int, *val](cap), vals: map[int]*val{}}
 }
 
+// newWorldCb: the cache calls back into the harness (a scheduling point) when
+// it deletes or evicts an entry.
+func newWorldCb(cap uint64) *world {
+	return &world{c: lru.NewCache[int, *val](cap, lru.WithDeleteCallback(func(int, *val) { hook("cb") })),
+		vals: map[int]*val{}}
+}
+
 func (w *world) exec(o op) string {
 	switch o.kind {
 	case "put":
@@ -361,7 +368,9 @@ func runSchedule(w *world, progs [][]op, choices []int) (branching []int, tids [
 				continue
 			}
 			alive++
-			if isPreLock(s.atSite[t]) && s.holder != -1 && s.holder != t {
+			// a caller parked just before Lock() can proceed only if the mutex is
+			// really free (asked of the cache itself, not inferred)
+			if isPreLock(s.atSite[t]) && !w.c.VerifLockFree() {
 				continue
 			}
 			en = append(en, t)
@@ -401,6 +410,9 @@ func runPrefix(w *world, prefix []op) {
 
 func emitConc(t *tr.W, cap uint64, prefix []op, progs [][]op, choices []int) (branching []int, status string) {
 	w := newWorld(cap)
+	if cap%2 == 0 {
+		w = newWorldCb(cap)
+	}
 	var pre []string
 	for _, o := range prefix {
 		pre = append(pre, o.String()+" => "+w.exec(o))
